@@ -189,6 +189,22 @@ class ModelBackend(Backend):
     def current_now(self):
         return self.world.now
 
+    def set_zone(self, std_off, dst_off, dst_now, dst_file, t_file):
+        """zone with standard / daylight offset; isdst(t) = dst_file for the file instant, dst_now for every other instant"""
+        import z3
+        from .pse import SymBool, SymInt, _z, _zb
+        W = self.W
+
+        def isdst(t):
+            if isinstance(dst_now, bool) and isinstance(dst_file, bool) and not isinstance(t, SymInt) and not isinstance(t_file, SymInt):
+                return dst_file if t == t_file else dst_now
+            return SymBool(z3.If(_z(t) == _z(t_file), _zb(dst_file), _zb(dst_now)))
+
+        self.world.zone = W.Zone(std_off, dst_off, isdst)
+
+    def now_window(self):
+        return (self.world.now, self.world.now)
+
     @property
     def tick(self):
         return self._tick
@@ -344,6 +360,17 @@ class ModelBackend(Backend):
         except fakexml.XMLSyntaxError as ex:
             raise Violation("chain-unparsable", str(ex))
 
+    def xml_files(self, rel=""):
+        return [f for f in self.walk_files(rel) if f.endswith(".mhl") or f.endswith("ascmhl_chain.xml") or f.endswith("ascmhl_collection.xml")]
+
+    def validate_xml(self, rel):
+        """schema errors of one written file (xsdmini on the modelled infoset)"""
+        from . import xsdmini, fakexml
+        try:
+            return xsdmini.validate_root(self._doc(self.p(rel)))
+        except fakexml.XMLSyntaxError as ex:
+            return ["not well-formed: %s" % ex]
+
     def file_token(self, rel):
         """identity of a file's current bytes (for 'byte-identical' assertions)"""
         n = self.world.nodes[self.p(rel)]
@@ -423,10 +450,13 @@ def _plain(s):
 
 
 # =============================================================================================== real
+CONTENT_SEED = [0]
+
+
 def real_content(cid, size):
     if size == 0:
         return b""
-    seed = hashlib.sha256(b"cid:%d" % cid).digest()
+    seed = hashlib.sha256(b"cid:%d:%d" % (cid, CONTENT_SEED[0]) if CONTENT_SEED[0] else b"cid:%d" % cid).digest()
     head = bytes([cid % 251 + 1])
     return (head + seed * (size // 32 + 1))[:size]
 
@@ -530,9 +560,28 @@ class RealBackend(Backend):
         path = self.p(rel)
         st = os.stat(path)
         if path.endswith(".mhl") or path.endswith(".xml"):
-            # tampering with a manifest: keep it parseable, change the bytes
-            with open(path, "ab") as f:
-                f.write(b"\n" * (1 + cid % 3))
+            # tampering with a manifest: the kind of byte edit is selected by the (otherwise opaque) new content id
+            data = open(path, "rb").read()
+            kind = cid % 7
+            if kind == 1:
+                data = data + b"\n"
+            elif kind == 2:
+                i = len(data) // 2
+                data = data[:i] + bytes([data[i] ^ 0x01]) + data[i + 1:]
+            elif kind == 3:
+                i = data.index(b"\n")
+                data = data[:i] + b"\r" + data[i:]
+            elif kind == 4:
+                data = data[:-1]
+            elif kind == 5:
+                data = data.replace(b"\n", b"\r\n")
+            elif kind == 6:
+                i = data.index(b">") + 1
+                data = data[:i] + b" " + data[i:]
+            else:
+                data = data.rstrip(b"\n") + b"<!-- -->\n"
+            with open(path, "wb") as f:
+                f.write(data)
         else:
             with open(path, "wb") as f:
                 f.write(real_content(cid, st.st_size if size is None else size))
@@ -556,7 +605,41 @@ class RealBackend(Backend):
         self.now, self.now_micro = t, micro
 
     def current_now(self):
-        return self.now
+        import time
+        return self.now if self.clock == "freeze" else int(time.time())
+
+    def now_window(self):
+        """(earliest, latest) instant 'now' may denote for the last command (real clock: the command's run time)"""
+        return self.last_window if self.clock != "freeze" else (self.now - self.tick, self.now - self.tick)
+
+    def set_zone(self, std_off, dst_off, dst_now, dst_file, t_file):
+        """real clock + a POSIX TZ rule under which now / the file instant have the requested DST flags"""
+        import time, datetime as dt
+        self.clock = "real"
+        now = int(time.time())
+
+        def hhmm(off):  # POSIX sign is inverted
+            sign = "-" if off > 0 else ""
+            off = abs(off)
+            return "%s%d:%02d" % (sign, off // 3600, (off % 3600) // 60)
+
+        if dst_off == std_off:
+            self.tz = "VST%s" % hhmm(std_off)
+            return
+        doy = lambda t: max(1, min(365, dt.datetime.fromtimestamp(t, dt.timezone.utc).timetuple().tm_yday))
+        dn, df = doy(now), doy(t_file)
+        wrap = lambda d: (d - 1) % 365 + 1
+        if dst_now and dst_file:
+            far = wrap((dn + df) // 2 + (182 if abs(dn - df) < 182 else 0))
+            start, end = wrap(far + 3), wrap(far - 3)
+        elif dst_now:
+            start, end = wrap(dn - 4), wrap(dn + 4)
+        elif dst_file:
+            start, end = wrap(df - 4), wrap(df + 4)
+        else:
+            far = wrap((dn + df) // 2 + (182 if abs(dn - df) < 182 else 0))
+            start, end = wrap(far - 2), wrap(far + 2)
+        self.tz = "VST%sVDT%s,J%d/0,J%d/0" % (hhmm(std_off), hhmm(dst_off), start, end)
 
     # ---- queries
     def exists(self, rel):
@@ -690,6 +773,24 @@ class RealBackend(Backend):
         except ET.ParseError as ex:
             raise Violation("chain-unparsable", str(ex))
 
+    def xml_files(self, rel=""):
+        return [f for f in self.walk_files(rel) if f.endswith(".mhl") or f.endswith("ascmhl_chain.xml") or f.endswith("ascmhl_collection.xml")]
+
+    def validate_xml(self, rel):
+        """schema errors of one written file (lxml XMLSchema with the XSDs shipped in /repo/xsd)"""
+        from lxml import etree
+        if not hasattr(RealBackend, "_schemas"):
+            RealBackend._schemas = (etree.XMLSchema(etree.parse("/repo/xsd/ASCMHL.xsd")),
+                                    etree.XMLSchema(etree.parse("/repo/xsd/ASCMHLDirectory__combined.xsd")))
+        try:
+            doc = etree.parse(self.p(rel))
+        except etree.XMLSyntaxError as ex:
+            return ["not well-formed: %s" % ex]
+        sch = RealBackend._schemas[0 if rel.endswith(".mhl") else 1]
+        if sch.validate(doc):
+            return []
+        return [str(e) for e in sch.error_log][:5]
+
     def file_token(self, rel):
         b = self._bytes(rel)
         return (hashlib.sha256(b).hexdigest(), len(b))
@@ -766,6 +867,7 @@ class RealBackend(Backend):
         old_cwd = os.getcwd()
         os.chdir(self.p(cwd) if cwd is not None else self.base)
         runner = CliRunner(mix_stderr=False)
+        t_start = int(time.time())
         try:
             if self.clock == "freeze":
                 from freezegun import freeze_time
@@ -775,6 +877,7 @@ class RealBackend(Backend):
                 res = self._invoke(runner, cli, argv)
         finally:
             os.chdir(old_cwd)
+        self.last_window = (t_start, int(time.time()) + 1)
         exc = None
         if res.exception is not None and not isinstance(res.exception, SystemExit):
             exc = type(res.exception).__name__
